@@ -2,7 +2,7 @@
     Only statements, each closed by [exact] of a lemma proved in Cache/ConcProofs.v / ConcLink.v / Tables.v.
     Level: proof on the interleaving model of Cache/Conc.v (partial: see the header of Conc.v for what is
     outside the model). *)
-From PdfV Require Import Base.Prelude Gen.Generated Cache.Model Cache.Conc Cache.ConcProofs Cache.ConcLink Cache.Tables.
+From PdfV Require Import Base.Prelude Gen.Generated Cache.Model Cache.Conc Cache.Proofs Cache.ConcProofs Cache.ConcLink Cache.Tables.
 
 (** for every configuration, document, programs and schedule: no abort, no poisoned lock, every finished call
     answered as alone, no deadlock.  False as it stands (C13_full_refuted: cyclic documents deadlock, and the
@@ -10,33 +10,54 @@ From PdfV Require Import Base.Prelude Gen.Generated Cache.Model Cache.Conc Cache
 Definition C13_full_statement : Prop := conc_full_statement.
 
 (** the guard keyed by thread (the code as it is now, C13_chain_table), documents whose eager loads follow a
-    rank: every reachable state of every schedule is safe and not deadlocked *)
+    rank: every reachable state of every schedule of ANY number of threads making ANY number of calls, each call
+    requesting ANY type (the proof is an induction over the schedule, nothing is enumerated) is safe and not
+    deadlocked, and each thread has received a prefix of the sequential answers [D ty r] of its typed calls.  The
+    cache is keyed by the reference only: a thread may find a value another thread loaded as another type, or
+    an error of any kind another load left there (an object that does not exist, a wrong type, a parse error,
+    a "Recursive reference"), published before or while it waited: it is answered as alone all the same. *)
 Theorem C13_per_thread_chain : forall c prog rank,
-  per_thread c = true -> acyclic1 prog rank -> conc_statement c prog (D1 prog rank).
+  per_thread c = true -> acyclic prog rank -> conc_statement c prog (D prog rank).
 Proof. exact conc_per_thread_chain. Qed.
 Print Assumptions C13_per_thread_chain.
 
 (** ... also after letting the remaining threads run (the harness' completion phase) *)
 Theorem C13_completion : forall c prog rank progs sched fuel,
-  per_thread c = true -> acyclic1 prog rank ->
-  state_ok c (D1 prog rank) progs (complete c prog fuel (length progs) (run_sched c prog (ginit progs) sched)).
+  per_thread c = true -> acyclic prog rank ->
+  state_ok c (D prog rank) progs (complete c prog fuel (length progs) (run_sched c prog (ginit progs) sched)).
 Proof. exact conc_per_thread_complete. Qed.
 Print Assumptions C13_completion.
 
 (** ... and every run ends with all threads finished *)
 Theorem C13_terminates : forall c prog rank progs sched,
-  per_thread c = true -> acyclic1 prog rank ->
+  per_thread c = true -> acyclic prog rank ->
   exists fuel, all_finished (complete c prog fuel (length progs) (run_sched c prog (ginit progs) sched)) (length progs) = true.
 Proof. exact conc_terminates. Qed.
 Print Assumptions C13_terminates.
 
-(** the expected answer D1 is the answer of the sequential model of get (C12), cached or not *)
-Theorem C13_sequential_answer : forall (prog : ref -> comp) (rank : ref -> nat) (oc sc : bool) (fuel : nat)
-    (r : ref) (o : outcome) (st' : state),
-  acyclic1 prog rank -> (rank r < fuel)%nat ->
-  get (cfg_fixed oc sc) (fun _ => prog) fuel [] 0 r init = (o, st') -> o = D1 prog rank r.
-Proof. exact D1_is_sequential_answer. Qed.
+(** the expected answer D ty r is the answer of the sequential model of get (C12), cached or not, after any
+    sequential history of read calls, and the answer of the cache-free resolver *)
+Theorem C13_sequential_answer :
+  forall (prog : tytag -> ref -> comp) (filters : ref -> list filt) (raw : ref -> outcome)
+         (appf : filt -> val -> outcome) (imgc : ref -> filt -> val -> outcome)
+         (rank : ref -> nat) (oc sc : bool) (fuel : nat) (history : list call) (ty : tytag) (r : ref),
+    acyclic prog rank -> fuel_ok rank fuel history -> (rank r < fuel)%nat ->
+    let st := final_state prog filters raw appf imgc oc sc fuel history init in
+    fst (get (cfg_fixed oc sc) prog fuel [] ty r st) = D prog rank ty r /\
+    fst (get no_cache prog fuel [] ty r init) = D prog rank ty r.
+Proof. exact D_is_sequential_answer. Qed.
 Print Assumptions C13_sequential_answer.
+
+(** the property as worded: every call of every thread returns what it returns when it runs alone *)
+Theorem C13_answers_alone : forall c prog rank progs sched fuel t,
+  per_thread c = true -> acyclic prog rank ->
+  (forall cl, In cl (nth t progs []) -> (rank (snd cl) < fuel)%nat) ->
+  let g := run_sched c prog (ginit progs) sched in
+  let alone := fun cl : tcall => fst (get no_cache prog fuel [] (fst cl) (snd cl) init) in
+  (exists k, results (threads g t) = map alone (firstn k (nth t progs []))) /\
+  (finished g t = true -> results (threads g t) = map alone (nth t progs [])).
+Proof. exact conc_answers_alone. Qed.
+Print Assumptions C13_answers_alone.
 
 Theorem C13_full_refuted : ~ C13_full_statement.
 Proof. exact conc_full_refuted. Qed.
@@ -47,7 +68,7 @@ Theorem C13_refuted_shared_chain : exists prog progs sched,
   let c := mkCcfg true false false in
   let g := complete c prog 100 (length progs) (run_sched c prog (ginit progs) sched) in
   results (threads g 1%nat) = [Err E_OTHER] /\
-  (forall fuel, fst (get no_cache (fun _ => prog) (S fuel) [] 0 1 init) = Ok 5).
+  (forall fuel, fst (get no_cache prog (S fuel) [] 0 1 init) = Ok 5).
 Proof. exact conc_refuted_shared_chain. Qed.
 Print Assumptions C13_refuted_shared_chain.
 
@@ -73,24 +94,47 @@ Theorem C13_cyclic_deadlock : exists prog progs sched,
 Proof. exact conc_cyclic_deadlock. Qed.
 Print Assumptions C13_cyclic_deadlock.
 
+(** the class of changes "serve a cached error of some kinds to a load that did not compute it" (the seeded change
+    missed_C13b: the missing-object kinds) breaks the property for every error kind of the harness, in the interleaving the seed's
+    demonstration forces: B arrives while A computes, waits, and receives A's error *)
+Theorem C13_serving_cached_errors_refuted : forall k : N, In k error_kinds ->
+  let serve := fun e : N => e =? k in
+  let prog := kind_prog k in
+  let c := mkCcfg true true true in
+  let g := fold_left (step_gen c prog serve) [0; 0; 1; 1; 0; 0; 0; 1; 1; 1; 1; 1]%nat (ginit [[(1, 3)]; [(2, 3)]]) in
+  acyclic prog (fun _ => O) /\ finished g 1%nat = true /\
+  results (threads g 1%nat) = [Err k] /\ fst (get no_cache prog 2 [] 2 3 init) = Ok 7.
+Proof. exact conc_serving_cached_errors_refuted. Qed.
+Print Assumptions C13_serving_cached_errors_refuted.
+
 Theorem C13_chain_table : cache_chain_per_thread = true.
 Proof. exact chain_table. Qed.
 Print Assumptions C13_chain_table.
 
-(** non-vacuity: an acyclic document with a nested load and a failing load; two threads sharing the resolver and
-    the cache, interleaved step by step, both get the sequential answers *)
-Definition ex_prog (r : ref) : comp :=
-  if r =? 2 then Call 0 1 (fun o => Ret (match o with Ok v => Ok (v + 1) | _ => Err 9 end))
-  else if r =? 3 then Ret (Err 1) else Ret (Ok 5).
+(** non-vacuity: an acyclic document in which object 2 loaded eagerly (type 0) follows a reference to object 3,
+    which does not exist, and fails with the missing-object error, while the same object loaded lazily (type 1)
+    succeeds; object 4 fails as type 0 with a parse error and succeeds as type 2.  Two threads sharing the
+    resolver and the cache load the same references as different types, interleaved step by step: the error
+    (or the value) one of them leaves in the cache is found by the other, and both get the sequential answers *)
+Definition ex_prog (ty : tytag) (r : ref) : comp :=
+  if r =? 2 then (if ty =? 1 then Ret (Ok 7)
+                  else Call 0 3 (fun o => Ret (match o with Ok v => Ok (v + 1) | _ => o end)))
+  else if r =? 3 then Ret (Err 3)
+  else if r =? 4 then (if ty =? 0 then Ret (Err 11) else Ret (Ok 9))
+  else Ret (Ok 5).
 Definition ex_rank (r : ref) : nat := if r =? 2 then 1%nat else 0%nat.
 Example C13_nonvacuous :
-  acyclic1 ex_prog ex_rank /\
+  acyclic ex_prog ex_rank /\
   let c := mkCcfg true true true in
-  let g := complete c ex_prog 200 2 (run_sched c ex_prog (ginit [[2; 3]; [1; 3; 2]]) [0; 1; 0; 1; 0; 1; 0; 1; 1; 0]%nat) in
-  map results (map (threads g) [0; 1]%nat) = [[Ok 6; Err 1]; [Ok 5; Err 1; Ok 6]] /\ all_finished g 2 = true.
+  let g := complete c ex_prog 200 2
+             (run_sched c ex_prog (ginit [[(0, 2); (1, 2); (2, 4)]; [(1, 2); (0, 2); (0, 4); (0, 1)]])
+                        [0; 1; 0; 1; 0; 1; 0; 1; 1; 0; 0; 1; 1; 0]%nat) in
+  map results (map (threads g) [0; 1]%nat) = [[Err 3; Ok 7; Ok 9]; [Ok 7; Err 3; Err 11; Ok 5]] /\
+  all_finished g 2 = true.
 Proof.
   split; [|vm_compute; split; reflexivity].
-  intros r. unfold ex_prog, ex_rank. destruct (r =? 2) eqn:E2.
-  - cbn [bounded1]. change (1 =? 2) with false. cbv iota. split; [lia|]. intros o. exact I.
-  - destruct (r =? 3); exact I.
+  intros ty r. unfold ex_prog, ex_rank. destruct (r =? 2) eqn:E2.
+  - destruct (ty =? 1); [exact I|]. cbn [bounded]. change (3 =? 2) with false. cbv iota.
+    split; [lia|]. intros o. exact I.
+  - destruct (r =? 3); [exact I|]. destruct (r =? 4); [destruct (ty =? 0); exact I|exact I].
 Qed.
